@@ -127,10 +127,30 @@ def _pos_key(span):
     return (m.group(1), int(m.group(2)), int(m.group(3))) if m else (span or "", 0, 0)
 
 
-def mir_write_str_entries(db, body, tyname):
-    """plain-literal writer entries for `Formatter::write_str(lit)` / `write_char(c)` calls in a Display impl and its closures"""
+def _site_variants(ctx, body):
+    """(def, bb) of a call site -> set of variants of `self` decided on the walked paths that reach it (None = undecided)"""
+    out = {}
+    if ctx is None:
+        return out
+    try:
+        res = ctx.walker(max_depth=2).walk(body)
+    except Exception:
+        return out
+    for r in res:
+        v = r.facts.variant.get(("val", ("obj", ("param", 1))))
+        for e in r.trace:
+            if e[0] == "call" and len(e) > 4 and isinstance(e[4], tuple) and e[4]:
+                out.setdefault(e[4][-1], set()).add(v)
+    return out
+
+
+def mir_write_str_entries(db, body, tyname, ctx=None):
+    """plain-literal writer entries for `Formatter::write_str(lit)` / `write_char(c)` calls in a Display impl and its
+    closures; an entry is tagged with the variant of `self` when every walked path reaching the call decided the same one
+    (`TimeInForce::Day => f.write_str(TOKEN_DAY)` next to a `write!` arm)"""
     from .rules.c10 import _const_str_arg
     out = []
+    sv = _site_variants(ctx, body)
     for d, b in db.bodies.items():
         if d != body.defp and not d.startswith(body.defp + "::"):
             continue
@@ -156,7 +176,9 @@ def mir_write_str_entries(db, body, tyname):
                             v = v or op.get("pstr") or op.get("char") or op.get("str")
             if v is None:
                 continue
-            f = {"mod": "", "impl_self": tyname, "impl_trait": "fmt::Display", "fns": ["fmt"], "arms": [],
+            vs = sv.get((d, bb)) or set()
+            arms = ["%s::%s" % (tyname, list(vs)[0])] if len(vs) == 1 and None not in vs else []
+            f = {"mod": "", "impl_self": tyname, "impl_trait": "fmt::Display", "fns": ["fmt"], "arms": arms,
                  "pieces": [{"lit": v}], "args": [], "macros": ["write!"], "span": t["span"], "callsite": t["span"]}
             out.append(WriterEntry(f))
     return out
@@ -216,7 +238,7 @@ class Writers:
             extra = []
             for b in db.bodies.values():
                 if b.name == "fmt" and b.impl_trait and "fmt::Display" in b.impl_trait and b.kind != "Closure" and base_type(b.impl_self or "") == t:
-                    extra += mir_write_str_entries(db, b, t)
+                    extra += mir_write_str_entries(db, b, t, ctx)
             if extra:
                 self.by_type[t] = sorted(self.by_type[t] + extra, key=lambda e: _pos_key(e.callsite))
         if ctx is not None:
